@@ -429,6 +429,117 @@ func c04ConfigPath(ctx *Ctx, idx int) {
 	}
 }
 
+// c04SeveralFans: several fans of one configuration that all rely on the same (default or explicit) algorithm form,
+// each on its own curve and starting PWM, ticking at (almost) the same moment as the daemon's tickers do. Every fan must
+// settle at its own steady value exactly as it does alone.
+func c04SeveralFans(ctx *Ctx, idx int) {
+	r := ctx.Rng
+	dir := ctx.Path(fmt.Sprintf("c04multi-%d", idx))
+	_ = os.MkdirAll(dir, 0755)
+	defer os.RemoveAll(dir)
+	pfx := fmt.Sprintf("c04m%dn%d-", ctx.Batch, idx)
+	form := pick(r, []string{"absent", ""}, []string{"absent", ""}, []string{"string-pid", "    controlAlgorithm: pid\n"},
+		[]string{"object-direct-limit", "    controlAlgorithm:\n      direct:\n        maxPwmChangePerCycle: 7\n"})
+	n := 2 + r.Intn(2)
+	var sb strings.Builder
+	fmt.Fprintf(&sb, "dbPath: %s/fan2go.db\nsensors:\n", dir)
+	for i := 0; i < n; i++ {
+		sf := filepath.Join(dir, fmt.Sprintf("sensor%d", i))
+		_ = os.WriteFile(sf, []byte("50000\n"), 0644)
+		fmt.Fprintf(&sb, "  - id: %ss%d\n    file:\n      path: %s\n", pfx, i, sf)
+	}
+	sb.WriteString("curves:\n")
+	for i := 0; i < n; i++ {
+		fmt.Fprintf(&sb, "  - id: %sc%d\n    linear:\n      sensor: %ss%d\n      min: 0\n      max: 100\n", pfx, i, pfx, i)
+	}
+	sb.WriteString("fans:\n")
+	starts := make([]int, n)
+	for i := 0; i < n; i++ {
+		ff := filepath.Join(dir, fmt.Sprintf("fan%d", i))
+		starts[i] = r.Intn(256)
+		_ = os.WriteFile(ff, []byte(fmt.Sprintf("%d\n", starts[i])), 0644)
+		fmt.Fprintf(&sb, "  - id: %sf%d\n    file:\n      path: %s\n    curve: %sc%d\n%s", pfx, i, ff, pfx, i, form[1])
+	}
+	cfgPath := filepath.Join(dir, "fan2go.yaml")
+	_ = os.WriteFile(cfgPath, []byte(sb.String()), 0644)
+	viper.Reset()
+	configuration.InitConfig(cfgPath)
+	if err := viper.ReadInConfig(); err != nil {
+		ctx.Inconclusive("C04 several fans: " + err.Error())
+		return
+	}
+	configuration.LoadConfig()
+	if err := configuration.Validate(cfgPath); err != nil {
+		ctx.Violation("several-fans:documented-configuration-rejected", err.Error(), sb.String())
+		return
+	}
+	reg := prometheus.NewRegistry()
+	prometheus.DefaultRegisterer, prometheus.DefaultGatherer = reg, reg
+	installClock()
+	clockAutoTick = 0
+	fanMap, err := internal.InitializeObjects()
+	if err != nil {
+		ctx.Inconclusive("C04 several fans: " + err.Error())
+		return
+	}
+	ctrlMap, err := internal.VerifInitializeFanControllers(newMemPersistence(), fanMap)
+	if err != nil {
+		ctx.Inconclusive("C04 several fans: " + err.Error())
+		return
+	}
+	ctrls := make([]*controller.DefaultFanController, n)
+	want := make([]int, n)
+	for i := 0; i < n; i++ {
+		for fan, c := range ctrlMap {
+			if fan.GetId() == fmt.Sprintf("%sf%d", pfx, i) {
+				ctrls[i] = c.(*controller.DefaultFanController)
+			}
+		}
+		if ctrls[i] == nil {
+			ctx.Inconclusive("C04 several fans: controller missing")
+			return
+		}
+		ctrls[i].VerifSetPwmMap(identityMap())
+		cv := pick(r, 0, 255, 40, 128, 200, r.Intn(256))
+		temp := float64(cv) / 255 * 100000
+		sn, _ := sensors.GetSensor(fmt.Sprintf("%ss%d", pfx, i))
+		sn.SetMovingAvg(temp)
+		want[i] = int(temp / 100000 * 255)
+	}
+	tick := pick(r, int64(50), 200, 200, 1000)
+	gap := pick(r, 20*time.Microsecond, 200*time.Microsecond, 2*time.Millisecond)
+	cycles := c04PidN + 300
+	reqs := make([][]int, n)
+	for k := 0; k < cycles; k++ {
+		advance(time.Duration(tick) * time.Millisecond)
+		for i := 0; i < n; i++ {
+			advance(gap) // the tickers of all controllers fire together; the controllers run one after the other
+			if e := ctrls[i].UpdateFanSpeed(); e != nil {
+				ctx.Violation("several-fans:error:"+form[0], e.Error(), sb.String())
+				return
+			}
+			v, _ := ctrls[i].VerifLastSetPwm()
+			reqs[i] = append(reqs[i], v)
+		}
+	}
+	ctx.Eval(int64(cycles * n))
+	lo := c04PidN
+	if form[0] == "object-direct-limit" {
+		lo = 255/7 + 2
+	}
+	desc := map[string]interface{}{"kind": "several-fans", "form": form[0], "fans": n, "tickMs": tick, "gap": gap.String(), "steady": want, "starts": starts}
+	ctx.SampleKind("several-fans", desc)
+	for i := 0; i < n; i++ {
+		for k := lo; k < cycles; k++ {
+			if d := reqs[i][k] - want[i]; d > 1 || d < -1 {
+				ctx.Violation("several-fans:not-settled:"+form[0], fmt.Sprintf("%v: fan %d requests %d in cycle %d, its steady value is %d; last requests %v", desc, i, reqs[i][k], k, want[i], tail(reqs[i], 8)), desc)
+				return
+			}
+		}
+	}
+	ctx.Nontrivial(fmt.Sprintf("several-fans|%s|%d|%d|%s|%v", form[0], n, tick, gap, want))
+}
+
 // c04StoppingFan: a fan that is allowed to stop (neverStop off) and has a tachometer; below a threshold it really
 // stops (0 RPM). With a constant curve value the request must still settle at S(c) and stay there however long the
 // curve idles - the stall protection is for never-stop fans only.
@@ -465,6 +576,48 @@ func c04StoppingFan(ctx *Ctx, cfg c04Config, r *rand.Rand) {
 		})
 		if !bad {
 			ctx.Nontrivial(fmt.Sprintf("stopping-fan|%d|%d|%s|%d|%d", cfg.Min, cfg.Max, loop.Kind, c, sc.Window))
+		}
+	}
+}
+
+// c04RealFanLimits: S(0) and S(255) on real hwmon fans whose limits come partly from the configuration and partly
+// from the attached measurement: the steady request at curve 255 is the maximum the user configured (resp. the
+// measured one), at curve 0 the minimum, for every algorithm.
+func c04RealFanLimits(ctx *Ctx, r *rand.Rand) {
+	for k := 0; k < 6; k++ {
+		fan, _, _ := genFan(r, []string{"hwmon"})
+		if fan.ExpMax == nil {
+			continue
+		}
+		fan.HasRpm = false // no tachometer: the stall logic stays out of this
+		for _, loop := range []LoopSpec{{Kind: "direct"}, {Kind: "ratelimit", M: 5 + r.Intn(40)}} {
+			sc := &Scenario{Fan: fan, Plant: PlantSpec{Kind: "linear", MaxRpm: 2000}, Map: MapSpec{Kind: "identity"}, Loop: loop, Window: 1, InitPwm: r.Intn(256), InitMode: 1}
+			for i := 0; i < 70; i++ {
+				sc.Steps = append(sc.Steps, CycleStep{Curve: 255, DtMs: 200})
+			}
+			for i := 0; i < 70; i++ {
+				sc.Steps = append(sc.Steps, CycleStep{Curve: 0, DtMs: 200})
+			}
+			bad := false
+			runScenario(ctx, sc, func(w *World, rec *CycleRecord) bool {
+				ctx.Eval(1)
+				if rec.Err != nil || rec.Panic != "" || !rec.HasRequest {
+					return true
+				}
+				cls := c01LimitClass(sc) + ":" + loop.Kind
+				if rec.Idx == 69 && rec.Request != *fan.ExpMax {
+					ctx.Violation("real-fan:steady-value-at-curve-255-is-not-the-fan-maximum:"+cls, fmt.Sprintf("request %d after 70 cycles at curve 255; configured max %s, configured min %s, limits by configuration and measurement %v..%d", rec.Request, pstr(fan.CfgMax), pstr(fan.CfgMin), pstr(fan.ExpMin), *fan.ExpMax), sc)
+					bad = true
+				}
+				if rec.Idx == 139 && fan.ExpMin != nil && rec.Request != *fan.ExpMin {
+					ctx.Violation("real-fan:steady-value-at-curve-0-is-not-the-fan-minimum:"+cls, fmt.Sprintf("request %d after 70 cycles at curve 0; configured max %s, configured min %s, limits by configuration and measurement %d..%d", rec.Request, pstr(fan.CfgMax), pstr(fan.CfgMin), *fan.ExpMin, *fan.ExpMax), sc)
+					bad = true
+				}
+				return false
+			})
+			if !bad {
+				ctx.Nontrivial(fmt.Sprintf("real-fan|%s|%s|%v|%d", c01LimitClass(sc), loop.Kind, fan.NeverStop, *fan.ExpMax))
+			}
 		}
 	}
 }
@@ -534,6 +687,8 @@ func init() {
 			c04Pid(ctx, cfg, r, nPid)
 			c04ConfigPath(ctx, i)
 			c04StoppingFan(ctx, cfg, r)
+			c04RealFanLimits(ctx, r)
+			c04SeveralFans(ctx, i)
 		}
 	})
 }
